@@ -158,6 +158,21 @@ def run(prog, rep, tier='quick'):
     for method, d in (('music', 0), ('ev', 1)):
         v, itp = C.run_function(prog, 'eigenfre', 'eigen', [X(), C.symint('P', 3, 'order')], {'NSIG': C.symint('NSIG', 1), 'method': Const(method), 'NFFT': nf()})
         report_conflicts(rep, 'accumulation', itp, ('s',), method, seen)
+        for e in itp.events:
+            if e[0] == 'masked-ufunc' and e[4] == f.qname:
+                fill = e[3]
+                same = fill in ('inf', float('inf'))
+                key = ('masked', normalise(e[1]))
+                if key in seen:
+                    continue
+                seen.add(key)
+                if same:
+                    rep.proved('accumulation', f.qname, 'masked %s' % normalise(e[1])[:60], 'excluded entries are +inf, as the plain reciprocal gives', loc(f.mod, e[1]))
+                else:
+                    rep.violation('accumulation', f.qname, 'masked %s' % normalise(e[1])[:60], 'a masked ufunc on the way to the pseudo-spectrum: '
+                                  'where the mask is false the result keeps the `out` buffer (%s), not the value of the operation -- at an '
+                                  'exact null of the noise-subspace projection the pseudo-spectrum is %s instead of +inf (not positive / not a peak)'
+                                  % ('filled with %s' % fill if fill is not None else 'unspecified contents', fill if fill is not None else 'arbitrary'), loc(f.mod, e[1]))
         if isinstance(v, Tup):
             check_sink(rep, 'accumulation', f.qname, method, 'pseudo-spectrum', v.items[0], {'s': F(d)}, where)
     rep.floor('validation cases', n_v, 10)
